@@ -89,6 +89,22 @@ theorem full_prune_exact (o : Opts) (used : List BlobH) (idx : List PB) (packs :
     (∀ x ∈ idx, keptB pl x.pack = true → x.pack ∈ packs.map (·.1)) :=
   Restic.Proofs.C10Exact.full_prune_exact hnd hc h
 
+/-- link to the executable statement evaluated by the driver on the real plan -/
+theorem full_plan_ok (o : Opts) (used : List BlobH) (idx : List PB) (packs : List (ID × Nat)) (pl : Plan)
+    (hnd : used.Nodup) (hc : o.repackCacheableOnly = false)
+    (h : planPrune o (fun _ => true) used idx packs = .ok pl) : fullPlanOK used idx packs pl = true := by
+  obtain ⟨h1, h2, h3⟩ := full_prune_exact o used idx packs pl hnd hc h
+  unfold fullPlanOK
+  simp only [Bool.and_eq_true, List.all_eq_true, List.contains_eq_mem, decide_eq_true_eq, Bool.or_eq_true,
+    Bool.not_eq_true', List.any_eq_true]
+  refine ⟨⟨h1, h2⟩, ?_⟩
+  intro x hx
+  by_cases hk : keptB pl x.pack = true
+  · right
+    obtain ⟨y, hy, hyx⟩ := List.mem_map.mp (h3 x hx hk)
+    exact ⟨y, hy, hyx⟩
+  · left; simpa using hk
+
 /-- unindexed packs are deleted first, whatever the options -/
 theorem unindexed_removed (o : Opts) (choice : ID → Bool) (used : List BlobH) (idx : List PB)
     (packs : List (ID × Nat)) (pl : Plan) (hN : (packs.map (·.1)).Nodup)
